@@ -17,7 +17,7 @@ TInit == l = 1 /\ mon = MonInit /\ bad = {}
 
 Known == {"alloc", "free", "result", "cancelled", "submit", "cqe", "dropcqe", "cancelreq", "ringclosed",
           "dropfree", "psubmit", "ppop", "pcancel", "pevent", "bdispatch", "bstart", "bdone",
-          "hsub", "htake", "hpending", "hready", "hbufdrop", "hdrvdrop", "hend", "reset"}
+          "hsub", "htake", "hpending", "hready", "hbufdrop", "hdrvdrop", "hend", "hsetw", "hwoken", "hwchk", "reset"}
 
 TNext ==
   /\ l <= Len(Rec)
